@@ -91,6 +91,7 @@ def _legacy_state(ctx, model):
            "legacy state = __getinitargs__()" if ok else
            "Expression.__getstate__ does not return __getinitargs__()")
     ok = True
+    via_class_setattr = False
     for ps in summarize(ss.node, plain=True, loop_mode="01"):
         if ps.term == "raise":
             continue
@@ -104,6 +105,23 @@ def _legacy_state(ctx, model):
         other = [e for e in ps.events if e.kind == "attrwrite"]
         if other:
             ok = False
+        plain = [e for e in ps.events if e.kind == "call" and e.name == "setattr"
+                 and e.args and e.args[0] == SELF]
+        if plain:
+            via_class_setattr = True
+        if any(it[0] == "for" for it in ps.items) and not ws and not plain:
+            ok = False
+    # the restore must not go through the class's own __setattr__: decorated
+    # node classes are frozen dataclasses whenever __debug__ is on, and the
+    # exact-number classes refuse rebinding; object.__setattr__ is the one
+    # writer that works for every subclass in every optimisation mode
+    ctx.ob("S/legacy-state/setstate-bypasses-frozen-setattr",
+           not via_class_setattr, E.module.loc(ss.node),
+           "fields are restored with object.__setattr__" if not via_class_setattr
+           else "Expression.__setstate__ restores fields with setattr(self, ...): "
+           "a legacy subclass of a decorated (frozen) node class, and "
+           "Rational/Polynomial, raise on that unless Python runs with -O, so "
+           "their pickles cannot be loaded in a normal interpreter")
     src = ast.unparse(ss.node)
     ok = ok and "_hash_value" not in src
     ctx.ob("S/legacy-state/setstate", ok, E.module.loc(ss.node),
